@@ -1291,7 +1291,7 @@ class DNA(symbolic.Object):
       elif len(self.children) == 1:
         child = self.children[0].to_numbers(flatten)
         if isinstance(child, tuple):
-          return tuple([self.value, list(child)])
+          return (self.value,) + child
         else:
           return (self.value, child)
       else:
